@@ -40,7 +40,7 @@ PROPS = {
         technique="contract-based deductive verification of the lexer context + bounded run-time contract on DDLParser.run (generated schemas)",
     ),
     "C03": dict(
-        contracts=["c03"], frames=["lexer-reset-complete", "tables-append-only"], bounded=True, level="other",
+        contracts=["c03"], frames=["lexer-reset-complete", "tables-append-only", "no-shared-mutable-skeleton"], bounded=True, level="other",
         explanation="deductive (frames): every lexer flag written while lexing is reset before each statement parse, the reset precedes every parse, results accumulate by append only; "
                     "BOUNDED deciding step for the textual part: ordered pairs / triples of statement units and unsupported statements inserted at every position vs concatenation of single-statement results",
         level_text="independence of statements: per-statement reset and append-only accumulation are proved as frame obligations; line-based statement assembly (regexes) is decided by a bounded concatenation contract",
@@ -56,7 +56,7 @@ PROPS = {
         technique=TECH,
     ),
     "C14": dict(
-        contracts=["c12"], frames=["init-before-use", "class-level-state", "file-path-only-under-dump", "global-purity", "ordered-iteration"], bounded=True, level="proof",
+        contracts=["c12"], frames=["init-before-use", "class-level-state", "file-path-only-under-dump", "global-purity", "ordered-iteration", "no-shared-mutable-skeleton"], bounded=True, level="proof",
         explanation="frame obligations over the real ASTs: every instance attribute written on the run() path is definitely assigned before use in each run (must-analysis with per-method summaries, "
                     "PLY callbacks = any t_*/p_* method), no class-level mutable state is mutated through instances, file-system calls only under `if dump`",
         level_text="static frame / definite-assignment obligations over the real source: no parser state is carried from one run() to the next, no class-level mutable state, no file access unless dump is requested",
@@ -64,7 +64,7 @@ PROPS = {
         technique="contract-based deductive verification: frame / initialisation obligations decided by static analysis of the real ASTs",
     ),
     "C15": dict(
-        frames=["global-purity", "class-level-state"], bounded=True, level="proof",
+        frames=["global-purity", "class-level-state", "no-shared-mutable-skeleton"], bounded=True, level="proof",
         explanation="frame obligations: construct and run paths never read PLY's process-global parser/lexer, write no module globals; the statement parse goes through self.yacc with lexer=self.lexer; "
                     "with disjoint per-object footprints any interleaving of different objects' operations is equivalent to a sequential one",
         level_text="global-purity frame obligations over the real source; the footprint-commutation argument (disjoint per-object state => interleavings equivalent to sequential runs) is stated, not machine-checked",
@@ -203,3 +203,20 @@ PROPS["C01"].update(
                "that the LALR tables select these alternatives and the regex pre-processor are decided by a bounded run-level contract over generated schemas",
     level_note="LALR alternative selection and the regex pre-processor are observed (bounded), not proved",
 )
+
+
+# ---------------------------------------------------------------------------------------------------------------------
+# State hygiene: frame obligations every per-function contract relies on (a contract speaks about a function of its
+# arguments and of the object's own state; that composes into a statement about scripts, re-runs and several parser
+# objects only if no state is shared behind the functions' backs).  They are part of EVERY property's check:
+#   global-purity                 no process-global state read / written on the construct and run paths, the statement
+#                                 parse goes through the object's own parser AND lexer
+#   class-level-state             no class-level mutable state mutated through instances or through the class
+#   no-shared-mutable-skeleton    module / class level dict-list-set displays are used read-only (never aliased, stored,
+#                                 updated, or shallow-copied when they nest mutable values)
+#   lexer-reset-complete          every lexer flag written while lexing is reset per statement; a reset precedes every
+#                                 call site of the statement parse
+#   init-before-use               every attribute written on the run path is (re)initialised in each run before use
+COMMON_FRAMES = ["global-purity", "class-level-state", "no-shared-mutable-skeleton", "lexer-reset-complete", "init-before-use"]
+for _pid, _cfg in PROPS.items():
+    _cfg["frames"] = list(dict.fromkeys(list(_cfg.get("frames", [])) + COMMON_FRAMES))
